@@ -220,7 +220,10 @@ def check(prop, pid, tier, seed, t0, no_proof) -> int:
         rc = 1
 
     # ---- 5. evidence --------------------------------------------------------
-    regimes = Counter(prop.regime(r["case"], r["obs"]) for r in results)
+    regimes: Counter = Counter()
+    for r in results:
+        tag = prop.regime(r["case"], r["obs"])
+        regimes.update(tag if isinstance(tag, (list, tuple)) else [tag])
     distinct = {prop.key(r["case"]) for r in results if prop.nontrivial(r["case"], r["obs"])}
     samples = [{"case": r["case"], "obs": trunc(r["obs"])} for r in results[:: max(1, len(results) // 3)][:3]]
     cov = {
